@@ -101,7 +101,13 @@ func (w *World) applyByz(a simrt.Action) bool {
 				}
 			}
 			parts = blk.MakePartSet(w.Cfg.BlockPartSize)
-			prop := types.NewProposal(h, r, parts.Header(), -1, types.BlockID{})
+			// a.I = "pol<k>": the proposal claims a proof-of-lock round k rounds back (whether or not a polka exists there)
+			polRound := int64(-1)
+			if len(a.I) == 4 && a.I[:3] == "pol" && r-int64(a.I[3]-'0') >= 0 {
+				polRound = r - int64(a.I[3]-'0')
+				w.Faults.Inc("byz_proposal_claims_pol_round")
+			}
+			prop := types.NewProposal(h, r, parts.Header(), polRound, types.BlockID{})
 			prop.Signature = v.key.Sign(types.SignBytes(ChainID, prop))
 			it := w.pool.AddProposal(prop, v.id, true, "")
 			w.tagSide(a, it, parts.Header().Hash)
